@@ -46,10 +46,13 @@ fn hostile_bytes(i: usize) -> Vec<u8> {
         21 => b"1E400".to_vec(),
         22 => b"A1:B1".to_vec(),
         23 => b"A1".to_vec(),
+        // corners swapped in one dimension only
+        24 => b"B1:A3".to_vec(),
+        25 => b"A3:B1".to_vec(),
         _ => HOSTILE_VALUES[i].as_bytes().to_vec(),
     }
 }
-const N_HOSTILE: usize = 24;
+const N_HOSTILE: usize = 26;
 /// values that address far cells / huge counts: they make the dense `Range` of a sheet huge (a
 /// known finding); on most bases they are left out so that the run is not dominated by aborts
 const FAR_VALUES: [usize; 5] = [3, 10, 11, 12, 13];
@@ -66,6 +69,8 @@ fn hostile_name(i: usize) -> String {
         21 => "1E400".into(),
         22 => "A1:B1".into(),
         23 => "A1".into(),
+        24 => "B1:A3".into(),
+        25 => "A3:B1".into(),
         _ => HOSTILE_VALUES[i].into(),
     }
 }
@@ -78,12 +83,16 @@ pub struct XmlItem {
     /// attribute name, or "" for a text node, "<" for the start tag itself, "</" for the end tag
     pub attr: String,
     pub range: std::ops::Range<usize>,
+    /// the element directly follows a sibling of the same name (attributes and start tags only):
+    /// the first element of a run and the later ones are distinct fault sites
+    pub later: bool,
 }
 
 pub fn scan_xml(x: &[u8]) -> Vec<XmlItem> {
     let mut out = vec![];
     let mut i = 0;
     let mut last_open: Option<(String, usize)> = None; // tag, end of its start tag
+    let mut prev_closed: Option<String> = None; // the element closed last, if nothing was opened since
     while i < x.len() {
         if x[i] != b'<' {
             i += 1;
@@ -107,17 +116,19 @@ pub fn scan_xml(x: &[u8]) -> Vec<XmlItem> {
         if closing {
             if let Some((t, e)) = &last_open {
                 if *t == tag && *e < start {
-                    out.push(XmlItem { tag: tag.clone(), attr: String::new(), range: *e..start });
+                    out.push(XmlItem { tag: tag.clone(), attr: String::new(), range: *e..start, later: false });
                 }
             }
             while j < x.len() && x[j] != b'>' {
                 j += 1;
             }
-            out.push(XmlItem { tag, attr: "</".into(), range: start..(j + 1).min(x.len()) });
+            out.push(XmlItem { tag: tag.clone(), attr: "</".into(), range: start..(j + 1).min(x.len()), later: false });
+            prev_closed = Some(tag);
             last_open = None;
             i = j + 1;
             continue;
         }
+        let later = prev_closed.as_deref() == Some(tag.as_str());
         // attributes
         loop {
             while j < x.len() && matches!(x[j], b' ' | b'\t' | b'\n' | b'\r') {
@@ -140,7 +151,7 @@ pub fn scan_xml(x: &[u8]) -> Vec<XmlItem> {
                     while j < x.len() && x[j] != q {
                         j += 1;
                     }
-                    out.push(XmlItem { tag: tag.clone(), attr: name, range: vs..j });
+                    out.push(XmlItem { tag: tag.clone(), attr: name, range: vs..j, later });
                     j += 1;
                 }
             } else if j == an {
@@ -152,7 +163,8 @@ pub fn scan_xml(x: &[u8]) -> Vec<XmlItem> {
             j += 1;
         }
         let end = (j + 1).min(x.len());
-        out.push(XmlItem { tag: tag.clone(), attr: "<".into(), range: start..end });
+        out.push(XmlItem { tag: tag.clone(), attr: "<".into(), range: start..end, later });
+        prev_closed = if selfclose { Some(tag.clone()) } else { None };
         last_open = if selfclose { None } else { Some((tag, end)) };
         i = end;
     }
@@ -175,10 +187,10 @@ fn splice(x: &[u8], r: &std::ops::Range<usize>, with: &[u8]) -> Vec<u8> {
 /// hostile value; text nodes likewise; start tags deleted / duplicated, end tags deleted.
 pub fn xml_atoms(part_name: &str, x: &[u8], per_key: usize, full: bool, emit: &mut dyn FnMut(String, String, Vec<u8>)) {
     let items = scan_xml(x);
-    let mut seen: std::collections::BTreeMap<(String, String), usize> = Default::default();
+    let mut seen: std::collections::BTreeMap<(String, String, bool), usize> = Default::default();
     let short = part_name.rsplit('/').next().unwrap_or(part_name).split('.').next().unwrap_or("").trim_end_matches(char::is_numeric).to_string();
     for it in &items {
-        let c = seen.entry((it.tag.clone(), it.attr.clone())).or_insert(0);
+        let c = seen.entry((it.tag.clone(), it.attr.clone(), it.later)).or_insert(0);
         if *c >= per_key {
             continue;
         }
